@@ -104,7 +104,9 @@ def _cap(s):
     if s is TOP:
         return TOP
     if len(s) > MAXMONO:
-        return TOP
+        s = collapse(s)
+        if len(s) > MAXMONO:
+            return TOP
     return s
 
 
@@ -124,11 +126,29 @@ def sub(a, b):
     return add(a, neg(b))
 
 
+def collapse(a):
+    """One monomial per (exponents, decimal) class: factors are united, the sign is kept when all
+    members agree.  Loses which factors occur together, keeps dimension / degree / scale."""
+    if a is TOP:
+        return TOP
+    groups = {}
+    for m in a:
+        groups.setdefault((m.exps, m.dec), []).append(m)
+    out = []
+    for (exps, dec), ms in groups.items():
+        signs = {m.sign for m in ms}
+        facs = frozenset().union(*[m.facs for m in ms])
+        out.append(Mono(dict(exps), dec, signs.pop() if len(signs) == 1 else 0, facs))
+    return frozenset(out)
+
+
 def mul(a, b):
     if a is TOP or b is TOP:
         return TOP
-    if len(a) * len(b) > MAXMONO * 4:
-        return TOP
+    if len(a) * len(b) > MAXMONO:
+        a, b = collapse(a), collapse(b)
+        if len(a) * len(b) > MAXMONO * 4:
+            return TOP
     return _cap(frozenset(x.mul(y) for x in a for y in b))
 
 
@@ -141,7 +161,15 @@ def div(a, b):
         return TOP
     keys = {(m.exps, m.dec) for m in b}
     if len(keys) != 1:
-        return TOP
+        # complex denominator r + j*x of one dimension class: the quotient keeps the class, the
+        # split into real and imaginary part is lost (sign unknown, marker dropped)
+        keys2 = {(m.drop(("j",)).exps, m.dec) for m in b}
+        if len(keys2) != 1:
+            return TOP
+        facs = frozenset().union(*[m.facs for m in b])
+        any_b = next(iter(b)).drop(("j",))
+        bm = Mono(any_b.expd(), any_b.dec, 0, facs).inv()
+        return _cap(frozenset(x.drop(("j",)).mul(bm).with_sign(0) for x in a))
     signs = {m.sign for m in b}
     sg = signs.pop() if len(signs) == 1 else 0
     facs = frozenset().union(*[m.facs for m in b])
@@ -159,8 +187,11 @@ def power(a, k):
         return TOP
     if len(a) == 1:
         return frozenset(m.pow(k) for m in a)
-    if k == 2:
+    if k == 2 and len(a) <= 6:
         return mul(a, a)
+    if k == 2:
+        c = collapse(a)
+        return mul(c, c)
     if k == 1:
         return a
     keys = {(m.exps, m.dec) for m in a}
